@@ -191,6 +191,11 @@ def r1(ctx: Ctx):
       body_txt = ' '.join(unparse(b) for b in x.body)
       if 'next(self._it)' in body_txt and 'self._index += 1' in body_txt:
         skip = True
+      from mlmverif.props import c09 as _c09
+      helpers = _c09.draw_helpers(repo, 'DataIterator')
+      if any(isinstance(c, ast.Call) and isinstance(c.func, ast.Attribute) and is_self_attr(c.func) and c.func.attr in helpers
+             for b in x.body for c in ast.walk(b)):
+        skip = True     # a verified counting draw (one next + one increment)
   init = repo.func(IO, 'DataIterator.__init__')
   zero = any(isinstance(x, ast.Assign) and is_self_attr(x.targets[0], '_index')
              and unparse(x.value) == '0' for x in walk_no_nested(init.node))
@@ -462,7 +467,41 @@ def r11(ctx: Ctx):
                ' that element is delivered twice', node=nd.ast)
     else:
       ctx.ok(rule, fi, 'a raised record is counted before the exception leaves __next__', nd.ast)
-  ctx.floor(rule, 1)
+  # the sibling: DataIterator counts what it draws from ANY iterable — also from a SequenceDataSource, whose
+  # iterator was just shown to continue behind a failing record. The same obligation holds for each of its draws
+  # (in __next__ or in the counting helper it calls)
+  n_sib = 0
+  ci = repo.cls(IO, 'DataIterator')
+  for name, m in ci.methods.items():
+    g2 = cfgm.cfg_of(m.node)
+    draws2 = [nd for nd in g2.nodes if nd.kind in ('stmt', 'cond') and any(
+        isinstance(x, ast.Call) and unparse(x.func) == 'next' and x.args and is_self_attr(x.args[0])
+        for top in cfgm.node_exprs(nd) for x in ast.walk(top))]
+    for nd in draws2:
+      n_sib += 1
+      why = None
+      for h, lab in nd.succ:
+        if lab != 'exc':
+          continue
+        if h is g2.exit_exc:
+          why = 'no handler covers the draw'
+          continue
+        if h.exc_types and set(h.exc_types) <= {'StopIteration'}:
+          continue
+        if g2.must_pass(h, [g2.exit_exc], inc, explicit) is not None:
+          why = f'the handler `{h.text()}` re-raises without counting the element'
+      what = f'DataIterator.{name}: an element the source raised for is counted by the position'
+      if why:
+        ctx.fail(rule, m, what,
+                 f'`{nd.text()[:50]}` can raise for an unreadable element of a continuable source (a SequenceDataSource) and'
+                 f' {why}: the source has moved on but self._index has not — every later element is attributed to the'
+                 ' previous index: the shards (index % num_shards) overlap and miss elements, and a checkpoint restores'
+                 ' one element too early', node=nd.ast)
+      else:
+        ctx.ok(rule, m, what, nd.ast)
+  if not n_sib:
+    raise AnalysisError(f'{rule}: DataIterator no longer draws with next(self.<it>)')
+  ctx.floor(rule, 2)
 
 
 _LOOKAHEAD = ('peekable', 'seekable', 'spy', 'tee', 'bucket', 'islice_extended', 'lookahead')
@@ -821,6 +860,11 @@ _F = 'chainables/io.py'
 _T = 'chainables/transform.py'
 _U = 'utils/iter_utils.py'
 VARIANTS = [
+    B('revert-data-iterator-draw-not-counted-on-failure', 'chainables/io.py',
+      '    except Exception:\n      # A continuable source has stepped over the element it raised for.\n      self._index += 1\n      raise\n', '', 'R-C10-11'),
+    OK('data-iterator-draws-inline', 'chainables/io.py',
+       '    while self._index < self.config.state.start_index:\n      _ = self._draw()\n',
+       '    while self._index < self.config.state.start_index:\n      try:\n        _ = next(self._it)\n      except StopIteration:\n        raise\n      except Exception:\n        self._index += 1\n        raise\n      self._index += 1\n'),
     B('restore-walk-reads-the-wrong-end', 'chainables/transform.py',
       '      (upstream,) = iterators[0].data_sources', '      (upstream,) = iterators[-1].data_sources', 'R-C10-14'),
     OK('restore-walk-appends-then-reverses', 'chainables/transform.py',
@@ -879,7 +923,7 @@ VARIANTS = [
     B('offset-twice', _F, '        _start=start + offset,', '        _start=start + 2 * offset,',
       'R-C10-1'),
     B('dataiter-no-skip', _F,
-      '    while self._index < self.config.state.start_index:\n      _ = next(self._it)\n      self._index += 1\n',
+      '    while self._index < self.config.state.start_index:\n      _ = self._draw()\n',
       '', 'R-C10-1'),
     B('agg-state-shallow', _T, '        agg_state=copy.deepcopy(self.agg_state),',
       '        agg_state=copy.copy(self.agg_state),', 'R-C10-2'),
